@@ -122,3 +122,133 @@ Proof.
   rewrite (chain_text_frag (fun _ => true) (path_graph k0 (fattrs x0) (mk_restx l)) l [] [] k0 x0 [] None); try reflexivity; try assumption.
   intros p [].
 Qed.
+
+(** ------------------------------------------------------------------ (ii) the strip model on the chain text *)
+From CGV Require Import Frag.NDict Frag.StripImpl Frag.FragText Frag.FragProofs.
+
+Definition bsym_of (o : Z) : option bsym :=
+  if Z.eqb o 0 then Some BZero else if Z.eqb o 2 then Some BDouble else if Z.eqb o 3 then Some BTriple
+  else if Z.eqb o 4 then Some BQuad else None.
+Lemma zsym_bsym o : zsym o = optb (bsym_of o).
+Proof. unfold zsym, bsym_of. destruct (o =? 0); [reflexivity|]. destruct (o =? 2); [reflexivity|]. destruct (o =? 3); [reflexivity|]. destruct (o =? 4); reflexivity. Qed.
+Definition bond_toks (o : Z) : list tok := match bsym_of o with Some b => [TBond b] | None => [] end.
+Definition ntok (x : nodex) : tok := TBracket ("#"%char :: fst x) None.
+Definition okn (x : nodex) : Prop := body_ok ("#"%char :: fst x) = true /\ okx x.
+
+Fixpoint ctoks (x : nodex) (l : list (Z * Z * nodex)) {struct l} : list tok :=
+  ntok x :: match l with [] => [] | (o, _, x') :: r => bond_toks o ++ ctoks x' r end.
+Fixpoint cafter (x : nodex) (l : list (Z * Z * nodex)) {struct l} : list (list desc) :=
+  map to_desc (snd x) :: match l with [] => [] | (o, _, x') :: r => map (fun _ => []) (bond_toks o) ++ cafter x' r end.
+Fixpoint citems (x : nodex) (l : list (Z * Z * nodex)) {struct l} : list ditem :=
+  ITok (ntok x) :: map IDesc (map to_desc (snd x))
+  ++ match l with [] => [] | (o, _, x') :: r => map ITok (bond_toks o) ++ citems x' r end.
+
+Lemma citems_decorate : forall l x, decorate (ctoks x l) {| d_lead := []; d_after := cafter x l |} = citems x l.
+Proof.
+  unfold decorate. cbn [d_lead d_after map app].
+  induction l as [|[[o k] x'] r IH]; intros x; cbn [ctoks cafter citems interleave hd tl].
+  - reflexivity.
+  - f_equal. f_equal. unfold bond_toks. destruct (bsym_of o) as [b|]; cbn [map app interleave hd tl]; [f_equal|]; apply IH.
+Qed.
+Lemma render_descs D : forallb d_ok D = true -> flat_map render_item (map IDesc (map to_desc D)) = fbt D.
+Proof.
+  induction D as [|d D IH]; intros H; [reflexivity|]. cbn [forallb] in H. apply andb_prop in H as [H1 H2].
+  cbn [map flat_map]. rewrite render_desc by assumption. unfold fbt, fb_expected. cbn [map concat]. f_equal. now apply IH.
+Qed.
+Lemma render_citems : forall l x sprevo, okn x -> Forall (fun y => okn (snd y)) l ->
+  optb sprevo ++ render (citems x l) = ctext (optb sprevo) x l.
+Proof.
+  induction l as [|[[o k] x'] r IH]; intros x sp [_ Hx] Hl; cbn [citems ctext]; unfold render; cbn [flat_map render_item]; rewrite flat_map_app, (render_descs _ Hx).
+  - cbn [flat_map]. unfold ntxt, ntok. cbn [render_tok app S list_ascii_of_string]. rewrite !app_nil_r, <- !app_assoc. reflexivity.
+  - rewrite flat_map_app. fold (render (citems x' r)).
+    assert (Eb : flat_map render_item (map ITok (bond_toks o)) = optb (bsym_of o)).
+    { unfold bond_toks. destruct (bsym_of o); reflexivity. }
+    rewrite Eb. rewrite (IH x' (bsym_of o) (Forall_inv Hl) (Forall_inv_tail Hl)). rewrite zsym_bsym.
+    unfold ntxt, ntok. cbn [render_tok app S list_ascii_of_string]. rewrite <- !app_assoc. reflexivity.
+Qed.
+
+Lemma wf_descs D depth rest : forallb d_ok D = true ->
+  wf_items ZAtom depth (map IDesc (map to_desc D) ++ rest) = wf_items ZAtom depth rest.
+Proof.
+  intros H. induction D as [|d D IH]; [reflexivity|]. cbn [forallb] in H. apply andb_prop in H as [H1 H2].
+  cbn [map app wf_items is_zatom andb]. rewrite desc_ok_to_desc by assumption. cbn [andb]. now apply IH.
+Qed.
+Lemma wf_citems : forall l x z, match z with ZStart | ZBond | ZAtom => True | ZOpen => True end -> okn x -> Forall (fun y => okn (snd y)) l ->
+  wf_items z 0 (citems x l) = true.
+Proof.
+  induction l as [|[[o k] x'] r IH]; intros x z _ [Hb Hx] Hl; cbn [citems wf_items tok_ok ntok annot_ok]; rewrite Hb; cbn [andb];
+    rewrite wf_descs by exact Hx.
+  - reflexivity.
+  - unfold bond_toks. destruct (bsym_of o) as [b|]; cbn [map app wf_items tok_ok andb].
+    + apply IH; [exact I|exact (Forall_inv Hl)|exact (Forall_inv_tail Hl)].
+    + apply IH; [exact I|exact (Forall_inv Hl)|exact (Forall_inv_tail Hl)].
+Qed.
+Lemma nomult_citems : forall l x, has_mult (citems x l) = false.
+Proof.
+  unfold has_mult. induction l as [|[[o k] x'] r IH]; intros x; cbn [citems existsb ntok orb]; rewrite existsb_app.
+  - assert (E : existsb (fun i => match i with ITok (TMult _) => true | _ => false end) (map IDesc (map to_desc (snd x))) = false)
+      by (induction (snd x); [reflexivity|assumption]). now rewrite E.
+  - assert (E : existsb (fun i => match i with ITok (TMult _) => true | _ => false end) (map IDesc (map to_desc (snd x))) = false)
+      by (induction (snd x); [reflexivity|assumption]). rewrite E, existsb_app, IH. unfold bond_toks. destruct (bsym_of o); reflexivity.
+Qed.
+
+Section ChainSpec.
+  Variables (fo : float_oracle) (a0 : attrs).
+  Hypothesis Hp : fragment_node_parser fo [] = Ok a0.
+
+  Fixpoint cspec (sp : sst) (x : nodex) (l : list (Z * Z * nodex)) {struct l} : sst :=
+    let n := s_n sp in
+    let sp1 := {| s_n := Datatypes.S n; s_owner := n; s_stack := s_stack sp;
+                  s_clean := s_clean sp ++ coarse_text (fst x);
+                  s_desc := fold_left (fun d y => nd_append n (d_stored y) d) (snd x) (s_desc sp);
+                  s_ez := s_ez sp; s_ann := nd_update n a0 (s_ann sp) |} in
+    match l with
+    | [] => sp1
+    | (o, _, x') :: r =>
+        cspec {| s_n := s_n sp1; s_owner := s_owner sp1; s_stack := s_stack sp1; s_clean := s_clean sp1 ++ optb (bsym_of o);
+                 s_desc := s_desc sp1; s_ez := s_ez sp1; s_ann := s_ann sp1 |} x' r
+    end.
+
+  Lemma spec_descs sp D : forallb d_ok D = true ->
+    spec_run fo sp (map IDesc (map to_desc D))
+    = Ok {| s_n := s_n sp; s_owner := s_owner sp; s_stack := s_stack sp; s_clean := s_clean sp;
+            s_desc := fold_left (fun d y => nd_append (s_owner sp) (d_stored y) d) D (s_desc sp); s_ez := s_ez sp; s_ann := s_ann sp |}.
+  Proof.
+    revert sp. induction D as [|d D IH]; intros sp H; [destruct sp; reflexivity|].
+    cbn [forallb] in H. apply andb_prop in H as [H1 H2]. cbn [map spec_run spec_item bind fold_left].
+    rewrite (IH _ H2). unfold spec_desc. cbn [s_n s_owner s_stack s_clean s_desc s_ez s_ann]. now rewrite entry_desc.
+  Qed.
+  Lemma spec_run_app a b sp : spec_run fo sp (a ++ b) = (sp' <- spec_run fo sp a ;; spec_run fo sp' b).
+  Proof. revert sp. induction a as [|i a IH]; intros sp; [reflexivity|]. cbn [app spec_run]. destruct (spec_item fo sp i); cbn [bind]; [apply IH|reflexivity]. Qed.
+
+  Lemma spec_citems : forall l x sp, okn x -> Forall (fun y => okn (snd y)) l ->
+    spec_run fo sp (citems x l) = Ok (cspec sp x l).
+  Proof.
+    induction l as [|[[o k] x'] r IH]; intros x sp [_ Hx] Hl; cbn [citems cspec spec_run spec_item spec_tok ntok bind]; rewrite Hp; cbn [bind];
+      rewrite spec_run_app, (spec_descs _ _ Hx); cbn [bind s_n s_owner s_stack s_clean s_desc s_ez s_ann clean_tok].
+    - cbn [spec_run]. first [reflexivity | (f_equal; f_equal; unfold coarse_text; cbn [S list_ascii_of_string app]; rewrite <- ?app_assoc; reflexivity)].
+    - rewrite spec_run_app.
+      assert (Eb : forall sp0, spec_run fo sp0 (map ITok (bond_toks o))
+                   = Ok {| s_n := s_n sp0; s_owner := s_owner sp0; s_stack := s_stack sp0; s_clean := s_clean sp0 ++ optb (bsym_of o);
+                           s_desc := s_desc sp0; s_ez := s_ez sp0; s_ann := s_ann sp0 |}).
+      { intros sp0. unfold bond_toks. destruct (bsym_of o) as [b|]; cbn [map spec_run spec_item spec_tok bind clean_tok render_tok optb].
+        - reflexivity.
+        - rewrite app_nil_r. destruct sp0; reflexivity. }
+      rewrite Eb. cbn [bind s_n s_owner s_stack s_clean s_desc s_ez s_ann].
+      rewrite (IH x' _ (Forall_inv Hl) (Forall_inv_tail Hl)).
+      first [reflexivity | (f_equal; f_equal; f_equal; unfold coarse_text; cbn [S list_ascii_of_string app]; rewrite <- ?app_assoc; reflexivity)].
+  Qed.
+
+  (** the strip model on the text the writer produces for a chain *)
+  Theorem strip_chain : forall x l, okn x -> Forall (fun y => okn (snd y)) l ->
+    strip_bonding_descriptors fo (ctext [] x l) = Ok (sres (cspec sinit x l)).
+  Proof.
+    intros x l Hx Hl. pose proof (render_citems l x None Hx Hl) as R. cbn [optb app] in R. rewrite <- R, <- citems_decorate.
+    rewrite strip_correct.
+    - unfold strip_spec, spec_items. rewrite citems_decorate, (spec_citems l x sinit Hx Hl). reflexivity.
+    - unfold wf. rewrite citems_decorate, (wf_citems l x ZStart I Hx Hl), andb_true_r. cbn [d_after].
+      apply Nat.leb_le. clear. revert x. induction l as [|[[o k] x'] r IH]; intros x; cbn [cafter ctoks length]; [lia|].
+      rewrite !app_length, map_length. specialize (IH x'). lia.
+    - unfold excluded, excluded_items, class_of. now rewrite citems_decorate, nomult_citems.
+  Qed.
+End ChainSpec.
